@@ -4,11 +4,14 @@ Random market histories (ladders, traded volume, suspend / re-open with version 
 and scripted random strategies (place / cancel full or partial / replace, fill-or-kill, both persistence types) are run through
 the REAL framework; monitors evaluate, at every strategy callback, clauses of several properties on the real objects:
 
+  C01  a price replacement puts no more at risk than was risk-checked: the replacement order's size is what was cancelled from
+       the order it replaces (its unmatched remainder), never more
   C03  every status an order passes through follows the lifecycle; a completed order never becomes live again
   C04  size == matched + remaining + cancelled + lapsed + voided, matched/remaining >= 0, complete <=> nothing remains, matched monotone
   C05  every fragment within the order's limit; a fill-or-kill order never rests
   C06  per update, strategy and runner: passive fills <= half the traded-volume increase of that update (+0.01 per order)
-  C07  the clock seen in callbacks is the publish time; nothing is acknowledged before request time + latency (+ bet delay)
+  C07  the clock seen in callbacks is the publish time; nothing is acknowledged before request time + latency (+ bet delay);
+       a request that is due (latency elapsed) when an update - including the CLOSED one - arrives is no longer in flight after it
   C10  live_trades of a runner context == placed trades with an order that is not complete; trade complete <=> all orders complete
   C13  a strategy's ledger is identical whether it runs alone or next to another strategy (isolation on)
   C15  every order exactly once in the blotter and in each view; the live list holds every order that is not complete
@@ -71,7 +74,7 @@ def build_history(rnd, mid):
     mids = {s: rnd.randint(2, 8) for s in SELS}
     pt = T0
     for t in range(nt):
-        pt += rnd.choice([50, 200, 500, 1000, 1000, 2000, 3000])
+        pt += rnd.choice([50, 50, 100, 200, 500, 1000, 1000, 2000, 3000])  # short gaps: responses race with fills (latencies are 120-280 ms)
         md = None
         if t == 0:
             md = market_definition(mid, status, version, inplay, delay)
@@ -106,7 +109,7 @@ def build_history(rnd, mid):
             if status == "OPEN" and (t == 0 or rnd.random() < 0.6):
                 for _ in range(rnd.randint(1, 2)):
                     p = LADDER[max(0, min(len(LADDER) - 1, m + rnd.choice([-1, 0, 0, 1])))]
-                    v = rnd.choice([1.0, 4.0, 8.0, 15.0, 0.5])
+                    v = rnd.choice([1.0, 4.0, 8.0, 15.0, 0.5, 40.0])
                     cum[s][p] = round(cum[s].get(p, 0.0) + v, 2)
                     inc[p] = round(inc.get(p, 0.0) + v, 2)
                 d["trd"] = [[p, cum[s][p]] for p in inc]
@@ -125,6 +128,43 @@ def build_history(rnd, mid):
     return lines, meta
 
 
+# ---- harness-side observation (nothing in the repository is edited): which simulated response preceded a re-opening
+from flumine.simulation.simulatedorder import SimulatedOrder as _SO
+from flumine.order.order import BaseOrder as _BO
+
+LAST_RESPONSE = [None]
+P6_REOPENED = set()
+REOPENED_AFTER_SUCCESS = []
+
+
+def _wrap_response(name):
+    orig = getattr(_SO, name)
+
+    def rec(self, *a_, **k_):
+        r = orig(self, *a_, **k_)
+        LAST_RESPONSE[0] = (name, getattr(r, "status", None))
+        return r
+
+    setattr(_SO, name, rec)
+
+
+for _n in ("cancel", "update", "place"):
+    _wrap_response(_n)
+_orig_executable = _BO.executable
+
+
+def _executable(self):
+    if self.status == OrderStatus.EXECUTION_COMPLETE:
+        if LAST_RESPONSE[0] is not None and LAST_RESPONSE[0][1] == "FAILURE":
+            P6_REOPENED.add(id(self))
+        else:
+            REOPENED_AFTER_SUCCESS.append("order %s: completed order re-opened (EXECUTABLE) after a %s response %s" % (self.id[-5:], LAST_RESPONSE[0] and LAST_RESPONSE[0][0], LAST_RESPONSE[0] and LAST_RESPONSE[0][1]))
+    return _orig_executable(self)
+
+
+_BO.executable = _executable
+
+
 class Scripted(BaseStrategy):
     """random but reproducible behaviour driven by its own RNG (so that it behaves the same alone and next to another strategy)"""
 
@@ -137,6 +177,7 @@ class Scripted(BaseStrategy):
         self.tick = -1
         self.mine = []
         self.req = {}  # order id -> (request clock, delay)
+        self.inflight = {}  # order id -> (request clock, delay, kind) of the last place / cancel / replace request
         self.prev = {}
         self.ledger = []
 
@@ -152,12 +193,10 @@ class Scripted(BaseStrategy):
 
     def tainted(self, o):
         """recorded known finding P6: a FAILURE response to a request that was in flight re-opens an order that completed
-        meanwhile (e.g. lapsed on a suspension between request and response): ... in-flight, Execution complete, Executable"""
-        log = list(o.status_log)
-        for i in range(2, len(log)):
-            if log[i] == OrderStatus.EXECUTABLE and log[i - 1] == OrderStatus.EXECUTION_COMPLETE and log[i - 2] in self.INFLIGHT:
-                return True
-        return False
+        meanwhile (e.g. lapsed on a suspension between request and response): ... in-flight, Execution complete, Executable.
+        Attributed at the moment of the re-opening call (see the harness wrappers below): only a re-opening that directly
+        follows a FAILURE response of the simulated exchange is in the recorded region; one that follows a SUCCESS response is not."""
+        return id(o) in P6_REOPENED
 
     def monitors(self, market, where):
         if not self.monitor:
@@ -192,6 +231,14 @@ class Scripted(BaseStrategy):
         for o in self.mine:
             if o.id not in blot._orders and o.status not in (None, OrderStatus.VIOLATION):
                 self.fail("C15", "placed order %s is missing from the blotter" % o.id)
+        # C01: replacement orders (created by the framework, found through the trade) carry exactly the cancelled remainder
+        for tr in {x.trade for x in orders if x.trade.strategy is self}:
+            chain = list(tr.orders)
+            for prev_o, repl in zip(chain, chain[1:]):
+                if repl.order_type.ORDER_TYPE == OrderTypes.LIMIT and prev_o.order_type.ORDER_TYPE == OrderTypes.LIMIT and not any(x is repl for x in self.mine):
+                    if repl.order_type.size > prev_o.size_cancelled + EPS or repl.order_type.size > prev_o.order_type.size - prev_o.size_matched + EPS:
+                        self.fail("C01", "%s tick %d: replacement of order %s has size %s, but only %s was cancelled from it (size %s, matched %s): more is at risk than the replace request was checked for"
+                                  % (where, self.tick, prev_o.id[-5:], repl.order_type.size, prev_o.size_cancelled, prev_o.order_type.size, prev_o.size_matched))
         for o in [x for x in orders if x.trade.strategy is self and id(x) not in taint]:
             # C03
             log = [None] + list(o.status_log)
@@ -282,6 +329,7 @@ class Scripted(BaseStrategy):
         self.tick += 1
         self.passive_fill_monitor(market)
         self.monitors(market, "process_market_book")
+        self.due_requests_monitor("process_market_book")
         for o in self.mine:
             if o.order_type.ORDER_TYPE == OrderTypes.LIMIT:
                 self.prev[o.id] = (o.size_matched, o.status)
@@ -323,19 +371,38 @@ class Scripted(BaseStrategy):
                 if market.place_order(o):
                     self.mine.append(o)
                     self.req[o.id] = (now, config.place_latency + market_book.bet_delay)
+                    self.inflight[o.id] = (now, config.place_latency + market_book.bet_delay, "place")
             elif act < 0.8:
                 o = rnd.choice(live)
                 red = rnd.choice([None, None, round(o.size_remaining / 2, 2), 0.5])
                 if red is not None and (red <= 0 or red > o.size_remaining):
                     red = None
                 market.cancel_order(o, size_reduction=red)
+                if o.status == OrderStatus.CANCELLING:
+                    self.inflight[o.id] = (now, config.cancel_latency, "cancel")
             else:
                 o = rnd.choice(live)
                 np_ = rnd.choice([p for p in LADDER if p != o.order_type.price])
                 market.replace_order(o, np_)
+                if o.status == OrderStatus.REPLACING:
+                    self.inflight[o.id] = (now, config.replace_latency + market_book.bet_delay, "replace")
+
+    def due_requests_monitor(self, where):
+        """C07: a request takes effect at the FIRST update more than its latency (+ bet delay) after it - whatever that update is"""
+        if not self.monitor:
+            return
+        now = _dt.datetime.utcnow()
+        for o in self.mine:
+            rq = self.inflight.get(o.id)
+            if rq is None or o.status not in (OrderStatus.PENDING, OrderStatus.CANCELLING, OrderStatus.REPLACING):
+                continue
+            waited = (now - rq[0]).total_seconds()
+            if waited > rq[1] + 1e-6:
+                self.fail("C07", "%s: %s request of order %s made %.3fs ago (latency %.3fs) is still in flight (%s) after an update that came later than its latency" % (where, rq[2], o.id[-5:], waited, rq[1], o.status.value))
 
     def process_closed_market(self, market, market_book):
         self.monitors(market, "process_closed_market")
+        self.due_requests_monitor("process_closed_market")
         if self.monitor:
             for o in [x for x in market.blotter if x.trade.strategy is self]:
                 STATS["orders"] += 1
@@ -397,6 +464,9 @@ def main():
                     break
     finally:
         shutil.rmtree(tmp, ignore_errors=True)
+    if REOPENED_AFTER_SUCCESS:
+        for k in ("C03", "C15", "C10"):
+            failures.setdefault(k, []).insert(0, REOPENED_AFTER_SUCCESS[0] + " - it is not complete but has left the live list, its trade was completed")
     print(json.dumps(dict(evaluations=evaluations, distinct=len(distinct), stats=STATS, failures={k: v[:3] for k, v in failures.items()})))
 
 
